@@ -186,7 +186,7 @@ func fmtReads(rs []read) string {
 
 func main() {
 	run := report.New("C14", "exploration")
-	run.Rule("scenarios (real time, small durations): S1 identity (two issuers, equal subject+serial; certificates with keyIdentifier / issuer+serial / long / no authorityKeyIdentifier; issuers whose names are the same attributes in another order), S2 default lifetime with read periods above and below the lifetime and a good->revoked flip, S2d an expired entry with the responder unavailable under aia_strict is not served, S3 nextUpdate past / near (requested lifespan read from the cache table), S4 zero duration => hits == calls, S5 failed queries (down, garbage, unauthenticated) are not cached, S6 two checker instances with different durations, S7 seeded provision/cleanup life cycles of 1 h-cache instances, after every step a fresh zero-duration instance must contact the responder for every certificate cached so far; oracle one-sided: a verdict served without a responder hit at an age above lifetime+margin, or for another issuer's certificate, is a violation; non-trivial = the scenario observed at least one read served from cache (or, for S4/S5, responder hits on every call); distinct = scenario instance")
+	run.Rule("scenarios (real time, small durations): S1 identity (two issuers, equal subject+serial; certificates with keyIdentifier / issuer+serial / long / no authorityKeyIdentifier; issuers whose names are the same attributes in another order; issuers whose one-attribute names differ by a trailing digit that the other certificate's serial begins with), S2 default lifetime with read periods above and below the lifetime and a good->revoked flip, S2d an expired entry with the responder unavailable under aia_strict is not served, S3 nextUpdate past / near (requested lifespan read from the cache table), S4 zero duration => hits == calls, S5 failed queries (down, garbage, unauthenticated; strict and lenient checker) are not cached, S6 two checker instances with different durations, S7 seeded provision/cleanup life cycles of 1 h-cache instances, after every step a fresh zero-duration instance must contact the responder for every certificate cached so far; oracle one-sided: a verdict served without a responder hit at an age above lifetime+margin, or for another issuer's certificate, is a violation; non-trivial = the scenario observed at least one read served from cache (or, for S4/S5, responder hits on every call); distinct = scenario instance")
 	run.Assume("all stamps from one monotonic clock in the harness process; a lateness probe voids a scenario when 5 ms timers fire more than margin/4 late", "margin = max(1 s, 3 x lifetime)")
 	scratch, _ := report.Scratch("C14")
 	sut.QuietStderr(filepath.Join(scratch, "stderr.log"))
@@ -338,8 +338,17 @@ func main() {
 		defer wRB.Close()
 		e.install(wRA, "/ra", wRA.Int)
 		e.install(wRB, "/rb", wRB.Int)
+		// a third pair: single-attribute names where B's name is A's name plus one digit, and A's serial is that
+		// digit followed by B's serial (name and serial written one after the other are the same text for both)
+		wDA := world.NewNamed("C14-DA", nil, nil, der.Name([]der.ATV{{cnO, der.TagUTF8String, "Issuing CA 1"}}))
+		wDB := world.NewNamed("C14-DB", nil, nil, der.Name([]der.ATV{{cnO, der.TagUTF8String, "Issuing CA 12"}}))
+		defer wDA.Close()
+		defer wDB.Close()
+		e.install(wDA, "/da", wDA.Int)
+		e.install(wDB, "/db", wDB.Int)
 		for _, variant0 := range []string{"A-good.B-down.strict", "A-revoked.B-down.lenient", "A-good.B-revoked",
 			"A-good.B-down.strict/names=reordered", "A-good.B-revoked/names=reordered", "A-revoked.B-down.lenient/names=reordered",
+			"A-good.B-down.strict/names=digit-tail", "A-good.B-revoked/names=digit-tail", "A-revoked.B-down.lenient/names=digit-tail",
 			"A-good.B-down.strict/aki=issuer-serial", "A-revoked.B-down.lenient/aki=issuer-serial", "A-good.B-revoked/aki=issuer-serial",
 			"A-good.B-revoked/aki=long", "A-good.B-revoked/aki=none"} {
 			// the certificates' authorityKeyIdentifier: keyIdentifier (default), issuer+serial only, long form, absent
@@ -349,14 +358,23 @@ func main() {
 				variant, akiForm = v2, "names-reordered"
 				w, wB, pathA, pathB = wRA, wRB, "/ra", "/rb"
 			}
+			if v2, _, ok := strings.Cut(variant, "/names=digit-tail"); ok {
+				variant, akiForm = v2, "names-digit-tail"
+				w, wB, pathA, pathB = wDA, wDB, "/da", "/db"
+			}
 			serial := pki.NextSerial()
+			serialB := serial
+			if akiForm == "names-digit-tail" {
+				serialB = serial
+				serial, _ = new(big.Int).SetString("2"+serialB.String(), 10)
+			}
 			pkiAKI := akiForm
-			if akiForm == "none" || akiForm == "names-reordered" {
+			if akiForm == "none" || akiForm == "names-reordered" || akiForm == "names-digit-tail" {
 				pkiAKI = ""
 			}
 			subj := "same subject " + serial.String()
 			leafA := w.Int.Issue(pki.CertOpts{CN: subj, Serial: serial, OCSP: []string{w.OCSP.URL(pathA)}, AKIForm: pkiAKI, NoAKI: akiForm == "none"})
-			leafB := wB.Int.Issue(pki.CertOpts{CN: subj, Serial: serial, OCSP: []string{wB.OCSP.URL(pathB)}, AKIForm: pkiAKI, NoAKI: akiForm == "none"})
+			leafB := wB.Int.Issue(pki.CertOpts{CN: subj, Serial: serialB, OCSP: []string{wB.OCSP.URL(pathB)}, AKIForm: pkiAKI, NoAKI: akiForm == "none"})
 			chainA := []*x509.Certificate{leafA.Cert, w.Int.Cert, w.Root.Cert}
 			chainB := []*x509.Certificate{leafB.Cert, wB.Int.Cert, wB.Root.Cert}
 			strict := newChecker(true, time.Hour)
@@ -365,7 +383,7 @@ func main() {
 			switch variant {
 			case "A-good.B-down.strict":
 				e.set(pathA, serial, world.OCSPStatus{Status: ocsp.Good}, "")
-				e.setOn(wB, pathB, serial, world.OCSPStatus{}, "down")
+				e.setOn(wB, pathB, serialB, world.OCSPStatus{}, "down")
 				_, errA := strict.IsRevoked(chainA[0], [][]*x509.Certificate{chainA})
 				_, errB := strict.IsRevoked(chainB[0], [][]*x509.Certificate{chainB})
 				if errA != nil {
@@ -378,7 +396,7 @@ func main() {
 				}
 			case "A-revoked.B-down.lenient":
 				e.set(pathA, serial, world.OCSPStatus{Status: ocsp.Revoked}, "")
-				e.setOn(wB, pathB, serial, world.OCSPStatus{}, "down")
+				e.setOn(wB, pathB, serialB, world.OCSPStatus{}, "down")
 				sA, _ := lenient.IsRevoked(chainA[0], [][]*x509.Certificate{chainA})
 				sB, errB := lenient.IsRevoked(chainB[0], [][]*x509.Certificate{chainB})
 				if sA == nil || !sA.Revoked {
@@ -391,7 +409,7 @@ func main() {
 				}
 			case "A-good.B-revoked":
 				e.set(pathA, serial, world.OCSPStatus{Status: ocsp.Good}, "")
-				e.setOn(wB, pathB, serial, world.OCSPStatus{Status: ocsp.Revoked}, "")
+				e.setOn(wB, pathB, serialB, world.OCSPStatus{Status: ocsp.Revoked}, "")
 				_, _ = strict.IsRevoked(chainA[0], [][]*x509.Certificate{chainA})
 				sB, errB := strict.IsRevoked(chainB[0], [][]*x509.Certificate{chainB})
 				if errB != nil || sB == nil || !sB.Revoked {
@@ -489,21 +507,27 @@ func main() {
 		}
 		run.NonTrivial("S4 zero duration")
 	})
-	// S5: failed queries are never cached
-	for _, mode := range []string{"down", "garbage", "stranger"} {
+	// S5: failed queries are never cached (under strict the failed call is an error, under lenient it is accepted; in both
+	// the next call has to ask the responder again and must see its answer)
+	for _, mode := range []string{"down", "garbage", "stranger", "down/lenient", "garbage/lenient", "stranger/lenient"} {
 		mode := mode
 		goRun(func() {
-			chk := newChecker(true, time.Hour)
+			omode, lenientS5 := strings.CutSuffix(mode, "/lenient")
+			chk := newChecker(!lenientS5, time.Hour)
 			serial := pki.NextSerial()
 			chain := w.Leaf(serial, nil, []string{w.OCSP.URL("/a")})
-			e.set("/a", serial, world.OCSPStatus{Status: ocsp.Good}, mode)
-			_, err1 := chk.IsRevoked(chain[0], [][]*x509.Certificate{chain})
+			e.set("/a", serial, world.OCSPStatus{Status: ocsp.Good}, omode)
+			s1, err1 := chk.IsRevoked(chain[0], [][]*x509.Certificate{chain})
 			e.set("/a", serial, world.OCSPStatus{Status: ocsp.Revoked}, "")
 			h := e.hits("/a", serial)
 			s2, err2 := chk.IsRevoked(chain[0], [][]*x509.Certificate{chain})
 			run.Eval(2)
-			if err1 == nil {
+			if !lenientS5 && err1 == nil {
 				run.Violation("S5.failed-query."+mode+".accepted-under-strict", "first call with responder mode "+mode+" did not fail under strict", nil)
+				return
+			}
+			if lenientS5 && (err1 != nil || (s1 != nil && s1.Revoked)) {
+				run.Inconclusive("S5 " + mode + ": the failed query was not tolerated under lenient")
 				return
 			}
 			if e.hits("/a", serial) == h {
